@@ -23,6 +23,45 @@ from mirsym.engine import Engine, State, Unsupported, Outcome  # noqa
 from mirsym.values import *  # noqa
 from mirsym import smt  # noqa
 
+# portable SMT-LIB: z3 prints `(and)`, `(or)`, `(+ x)` for empty / unary n-ary applications, which cvc5 rejects
+_z3_And, _z3_Or, _z3_Sum = z3.And, z3.Or, z3.Sum
+
+
+def _flat(args):
+    if len(args) == 1 and isinstance(args[0], (list, tuple)):
+        return list(args[0])
+    return list(args)
+
+
+def _portable_and(*args):
+    a = _flat(args)
+    if not a:
+        return z3.BoolVal(True)
+    if len(a) == 1:
+        return a[0] if z3.is_expr(a[0]) else z3.BoolVal(bool(a[0]))
+    return _z3_And(*a)
+
+
+def _portable_or(*args):
+    a = _flat(args)
+    if not a:
+        return z3.BoolVal(False)
+    if len(a) == 1:
+        return a[0] if z3.is_expr(a[0]) else z3.BoolVal(bool(a[0]))
+    return _z3_Or(*a)
+
+
+def _portable_sum(*args):
+    a = _flat(args)
+    if not a:
+        return z3.IntVal(0)
+    if len(a) == 1:
+        return a[0]
+    return _z3_Sum(*a)
+
+
+z3.And, z3.Or, z3.Sum = _portable_and, _portable_or, _portable_sum
+
 REPO = os.environ.get('VERIF_REPO', '/repo')
 BUILD = os.path.join(VERIF, 'build')
 GUARD = 'rust_lang_rustfmt_verif'
